@@ -177,3 +177,37 @@ def mon_c04_race(spec, run):
             bad.append(("concurrent-decode", f"thread {e['i']} decoded {e['text']!r} for {spec['class']}.{spec['fn']} as {real}; sequentially it decodes as {m}"))
             break
     return bad
+
+
+def mon_c11_race(spec, run):
+    """what an assignment of a stepped number transmits = what the (stateless) model transmits for that value, whatever other threads assign
+    at the same time, whatever was assigned before and whatever the receiver reported in between; judged by the independent oracle too"""
+    from .props.c11 import SPEC, oracle
+    evs = [e for e in run.trace if e["k"] == "setr" and e["tok"] != "report"]
+    model = core.run_driver("encode", [f"{e['cls']} {e['fn']} {e['tok']}" for e in evs]) if evs else []
+    bad = []
+    for e in run.trace:
+        if e["k"] == "setr" and e["tok"] == "report":
+            bad.append(("report-raised", f"a value the receiver reported ({e['fn']}={e['rep']!r}) raised {e['res'][2:]} in the message handler"))
+    for e, m in zip(evs, model):
+        real = e["res"]
+        if real.startswith("S ") and e["fn"] in SPEC:
+            # the property itself, whatever the model says
+            why = oracle(e["fn"], eval(e["rep"]), real[2:])
+            if why:
+                bad.append(("wrong-text", f"thread {e['i']}: {e['cls']}.{e['fn']} = {e['rep']} transmitted {real[2:]!r}: {why} (earlier operations of this run: "
+                                          f"{[(x['tok'] if x['tok'] != 'report' else 'report ' + x['rep']) for x in run.trace if x['k'] == 'setr' and x['seq'] < e['seq']][-6:]})"))
+                continue
+        if m == "U":
+            continue
+        if m == "R":
+            if not real.startswith("R "):
+                bad.append(("history-dependent", f"thread {e['i']}: {e['cls']}.{e['fn']} = {e['rep']} transmitted {real!r}; on its own this assignment raises"))
+            continue
+        mt = core.unhx(m[2:])
+        if real != "S " + mt:
+            why = ""
+            if real.startswith("S "):
+                why = oracle(e["fn"], eval(e["rep"]), real[2:]) or "the text differs from what the same assignment transmits on its own"
+            bad.append(("history-dependent", f"thread {e['i']}: {e['cls']}.{e['fn']} = {e['rep']} transmitted {real[2:]!r} instead of {mt!r} ({why})"))
+    return bad[:3]
